@@ -148,6 +148,10 @@ Fixpoint read_name (fuel : nat) (s : ast) : out (list Z * ast) :=
       else '(n, s2) <- read_name fu s1 ;; Ok (c :: n, s2)
   end.
 
+(* char BufferedStream::get(): "if (char c = peek()) { ... } return 0;"  -- a NUL byte (like the end of the input) is
+   reported as 0 and NOT extracted *)
+Definition m_get (s : ast) : Z * ast := if a_peek s =? 0 then (0, s) else a_get s.
+
 Fixpoint read_symbols (fuel : nat) (s : ast) : cres ast :=
   match fuel with
   | O => ([], Fuel)
@@ -156,7 +160,7 @@ Fixpoint read_symbols (fuel : nat) (s : ast) : cres ast :=
       | Ok (v, s1) =>
           let atom := wrap32s v in
           if atom =? 0 then ([], Ok s1) else
-          let s2 := snd (a_get s1) in
+          let s2 := snd (m_get s1) in
           match read_name (fuel_of s2) s2 with
           | Ok (name, s3) => let '(cs, r) := read_symbols fu s3 in (COutput name [atom] :: cs, r)
           | Err l => ([], Err l)
